@@ -41,6 +41,20 @@ CLAIMED = {
         "savings judged on quantised recorded tables (tol*unit = rounding); numba paths not exercised.",
         "TLA+ refinement model checked with TLC + spec-to-code replay + trace validation",
     ),
+    "C13": (
+        "7/C13",
+        "Cuts.tla",
+        "TLC checks on the Check;Kernel model (Python indexing semantics: negative index wraps, slice "
+        "truncates, index beyond the array raises) that no accepted cut wraps or truncates, that no "
+        "IndexError escapes and that Check rejects exactly the complement of the admissible set, for "
+        "every tuple of the box; TLC then emits the admitted set per (n, kind, min_size) and the harness "
+        "feeds every tuple of the box and the malformed shapes to all 17 scorer classes/compositions: "
+        "ValueError iff rejected by the spec, accepted cuts must score as the same rows do in isolation.",
+        "Exhaustive over the box [-2,n+2]^k (quick) / [-3,n+3]^k (thorough) for n in 3..5/6 only; one "
+        "lattice data set per n in general position; the value oracle is metamorphic (same rows scored "
+        "alone), the definitional value itself is C01/C06's job.",
+        "TLA+ model of check-then-kernel with Python index semantics, TLC exhaustive + exhaustive replay",
+    ),
 }
 
 NOT_YET = {}
